@@ -556,19 +556,55 @@ pub fn run(ctx: &Ctx) -> CheckOutput {
 			t.sample(4, || json!({"detect_input": show(input)}));
 		}
 	});
+	// Part C: an input source that reports an I/O error during detection (or afterwards): the run must end
+	// with that error - never with success on the bytes delivered so far, never with "unable to detect"
+	let mut small: Vec<Vec<u8>> = vec![];
+	for f in F::ALL {
+		small.extend(gen::seeds(f).into_iter().filter(|s| s.len() <= 48));
+	}
+	for s in ["a=1\n", "a = 1\nb = 2\n", "[t]\nx = 1\n", "k: v\n", "- 1\n- 2\n", "{\"a\":1}\n", "[1,2]", "\u{feff}a: 1\n", "# c\na = 1\n"] {
+		small.push(s.as_bytes().to_vec());
+	}
+	small.push(vec![0x82, 0xa1, b'a', 0x01, 0xa1, b'b', 0x92, 0x01, 0x02]);
+	let small = gen::dedup(small);
+	let tc = par_fold(&small, Tally::default, |t, _, input| {
+		for k in 0..=input.len() {
+			for chunk in [0usize, 1, 3] {
+				for kind in super::c12::KINDS {
+					let r = crate::run::run_reader(crate::env::FailAtReader::new(input, k, chunk).with_kind(kind), None, F::Json);
+					t.evaluations += 1;
+					t.count("detect:reader-faults");
+					let bad = if r.panic.is_some() {
+						Some("panic")
+					} else if r.ok {
+						Some("failing-source-but-success")
+					} else if !r.err.contains(crate::env::INJECTED_READ) {
+						Some("failing-source-error-not-reported")
+					} else {
+						None
+					};
+					if let Some(class) = bad {
+						t.bad(format!("detect-{class}"), json!({"kind": "detect-fault", "input_hex": crate::util::hex(input), "input_text": show(input), "k": k, "chunk": chunk, "error_kind": format!("{kind:?}")}),
+							format!("input={} read with detection, the source fails ({kind:?}) after {k} bytes (chunk {chunk}): {}", show(input), r.brief()));
+					}
+				}
+			}
+		}
+	});
 	let mut tally = Tally::merge_all(ta);
 	tally.merge(Tally::merge_all(tb));
+	tally.merge(Tally::merge_all(tc));
 	tally.sample(8, || json!({"handle_history_example": "n=3 pattern=[1,2]: borrow[read(1),prefix(4)] ; borrow[read(4)] ; into_input + drain"}));
 	let req = |k: &str| (k.to_string(), *tally.counters.get(k).unwrap_or(&0));
 	let required = vec![
 		req("handle:states"), req("handle:key-validation-probes"), req("detected:json"), req("detected:yaml"),
-		req("detected:toml"), req("detected:msgpack"), req("detected:none"),
+		req("detected:toml"), req("detected:msgpack"), req("detected:none"), req("detect:reader-faults"),
 	];
 	CheckOutput {
 		level: "model_checking",
 		tally,
 		rule: format!(
-			"(A) explicit-state BFS to fixpoint over the real input handle (hook HandleProbe): data sizes 0..={nmax}, 5 source answer patterns, transitions = one borrow running any program of <= {max_ops} operations from {{read(b), prefix(b): b in 0..=n+1}}; states keyed on (captured_len, cursor_pos, source_eof, source_offset, pattern phase) read from the real object; reference model (byte string + offset) checked on every operation; both ways of taking ownership (Cow; Input drained with 4 chunkings) from every state; key validated by probe suffixes. (B) detection differential over the C02 corpus + truncated MessagePack collections + collection-marker first bytes + U+0700-07FF texts + all byte strings <= 2: detection never errs, None => 'unable to detect input format', Some F => translate(None) == translate(F) in verdict, bytes and error text for slice and for every reader schedule with <= {d} deviations, and slice/reader detect the same format for inputs that translate. Non-trivial = input translates successfully with detection."
+			"(A) explicit-state BFS to fixpoint over the real input handle (hook HandleProbe): data sizes 0..={nmax}, 5 source answer patterns, transitions = one borrow running any program of <= {max_ops} operations from {{read(b), prefix(b): b in 0..=n+1}}; states keyed on (captured_len, cursor_pos, source_eof, source_offset, pattern phase) read from the real object; reference model (byte string + offset) checked on every operation; both ways of taking ownership (Cow; Input drained with 4 chunkings) from every state; key validated by probe suffixes. (B) detection differential over the C02 corpus + truncated MessagePack collections + collection-marker first bytes + U+0700-07FF texts + all byte strings <= 2: detection never errs, None => 'unable to detect input format', Some F => translate(None) == translate(F) in verdict, bytes and error text for slice and for every reader schedule with <= {d} deviations, and slice/reader detect the same format for inputs that translate. (C) every seed input of <= 48 bytes read with detection from a source that fails (4 error kinds) after every byte offset, three chunkings: the run ends with the source's error text, never with success or 'unable to detect input format'. Non-trivial = input translates successfully with detection."
 		),
 		exhaustive: true,
 		bounds: json!({"handle_data_sizes": nmax, "handle_ops_per_borrow": max_ops, "deviations": d}),
@@ -587,6 +623,17 @@ pub fn replay(case: &Value) -> Option<String> {
 			let (n, pat, hist) = parse_hist(case);
 			let (_, fail, _) = key_after(n, pat, &hist);
 			fail.or_else(|| check_ownership(n, pat, &hist))
+		}
+		"detect-fault" => {
+			let input = unhex(case["input_hex"].as_str().unwrap());
+			let kind = match case["error_kind"].as_str() {
+				Some("UnexpectedEof") => std::io::ErrorKind::UnexpectedEof,
+				Some("InvalidData") => std::io::ErrorKind::InvalidData,
+				Some("Interrupted") => std::io::ErrorKind::Interrupted,
+				_ => std::io::ErrorKind::Other,
+			};
+			let r = crate::run::run_reader(crate::env::FailAtReader::new(&input, case["k"].as_u64().unwrap() as usize, case["chunk"].as_u64().unwrap() as usize).with_kind(kind), None, F::Json);
+			(r.panic.is_some() || r.ok || !r.err.contains(crate::env::INJECTED_READ)).then(|| r.brief())
 		}
 		"detect" => {
 			let input = unhex(case["input_hex"].as_str().unwrap());
